@@ -110,14 +110,14 @@ func runC05(p *Prog, r *Report) {
 		rc := q.Fn(R, rel, "pipe", "receiver")
 		if rc.OK() {
 			okTop := false
-			for _, b := range rc.fn.Blocks {
-				if iff, ok := b.Instrs[len(b.Instrs)-1].(*ssa.If); ok {
+			rc.EachInstrDeep(func(in ssa.Instruction) {
+				if iff, ok := in.(*ssa.If); ok {
 					d := NormAtom(iff.Cond, true)
 					if strings.Contains(d, ".Header[(len(") && strings.Contains(d, ") - 4)] & 128) != 0") {
 						okTop = true
 					}
 				}
-			}
+			})
 			r.Check(okTop, R, rel+"/stops-at-top-bit-word", rc.Pos(), "loop ends at the word whose first byte has bit 0x80 (the request id)", "the backtrace loop does not test the top bit of the first byte of the word just moved")
 		}
 	}
